@@ -97,9 +97,20 @@ def pre_post(ctx):
     st = tr.stores("_columns")
     isnd = atom(("call", "isinstance", (P("data"), atom(("global", "numpy.ndarray"))), ()))
     isdf = atom(("call", "isinstance", (P("data"), atom(("global", "pandas.DataFrame"))), ()))
-    ok = len(st) == 2 and {T.akey(e.value) for e in st} == {T.akey(T.NONE), T.akey(atom(("getattr", P("data"), "columns")))}
     fin = tr.final.attrs.get("_columns")
-    ok = ok and fin is not None and not T.mentions(fin, lambda a: a == ("attr", "_columns"))
+    ok = fin is not None and bool(st)
+    seen = set()
+    for conds, l in (q.ite_leaves(fin) if fin is not None else ()):
+        cs_ = [y for x in conds for y in q.conjuncts(x)]
+        if not q.feasible(cs_):
+            continue
+        if l == T.NONE and (isnd in cs_ or T.mk_not(isdf) in cs_):
+            seen.add("array")
+        elif l == atom(("getattr", P("data"), "columns")) and (isdf in cs_ or T.mk_not(isnd) in cs_):
+            seen.add("frame")
+        else:
+            ok = False  # a stale value, or the wrong one for the container
+    ok = ok and seen == {"array", "frame"}
     ctx.ob("LIVE", site, "_columns is recorded on every accepting path (None for arrays, the labels for DataFrames)", ok,
            "otherwise _postprocess uses the labels of an earlier call: %s" % (q.short(fin, 100) if fin is not None else None))
     rs = tr.raises()
@@ -446,15 +457,12 @@ def distribution(ctx):
     if ok:
         g = q.guards_in(unk[0], site)[-1]
         c = q.is_cmp(g)
-        sets = [a for a in T.walk(g) if a[0] == "call" and a[1] == "set"]
-        ok = c is not None and c[1] == "!=" and len(sets) == 2 and any(T.mentions(atom(s), lambda z: z[0] == "mcall" and z[2] == "keys") for s in sets) and \
-            any((s[2][0].single_atom() or ("", ""))[:2] == ("call", "numpy.unique") or (s[2][0].single_atom() or ("",))[0] == "call" and s[2][0].single_atom()[1] == "numpy.unique" for s in sets)
-    if ok:
-        for s in sets:
-            if T.mentions(atom(s), lambda z: z[0] == "mcall" and z[2] == "keys"):
-                arg = s[2][0]
-                parts = list(arg.atoms())
-                ok = ok and len(parts) == 2 and T.same(arg, atom(parts[0]) + atom(parts[1]))
+        sides = [q.set_operands(atom(x)) for x in c[2].atoms()] if c is not None and c[1] == "!=" and c[2].single_atom() is None else []
+        ok = len(sides) == 2 and None not in sides
+        if ok:
+            present = [s for s in sides if len(s) == 1 and (s[0].single_atom() or ("", ""))[:2] == ("call", "numpy.unique")]
+            asked = [s for s in sides if len(s) == 2 and any(x == cp or x == P("class_probabilities") for x in s)]
+            ok = len(present) == 1 and len(asked) == 1
     ctx.ob("GRD", site, "classes that do not occur in the data are refused (set of given + unspecified classes != set of classes present)", ok, "", unk[0] if unk else None)
     # unspecified classes share what is left, uniformly
     fill = [e for e in tr.of("localmut") if own(e) and e.how == "setitem" and e.name is not None and len(e.path) == 1 and (e.path[0][1].single_atom() or ("",))[0] == "iter"
@@ -514,14 +522,11 @@ def dirichlet_wiring(ctx):
     dr = [e for e in tr.calls() if e.callee == ("lib", "numpy.random.dirichlet")]
     ctx.ob("FWD", site, "the Dirichlet draw uses those weights", len(dr) == 1 and dr[0].args[:1] == (av,), "", dr[0] if dr else None)
     pr = fin.get("_dirichlet_probabilities")
-    a = pr.single_atom() if pr is not None else None
-    ok = a is not None and a[0] == "comp" and a[1] == "dict"
-    if ok:
-        k, v = a[2]
-        ix = [z for z in T.atoms_of(k, "idx")]
-        it = a[3][0].single_atom()
-        ok = len(ix) == 1 and k == q.sub(fin.get("_alpha_classes"), atom(ix[0])) and dr and v == q.sub(dr[0].result, atom(ix[0])) and \
-            it is not None and it[0] == "call" and it[1] == "range" and tuple(it[2]) == (atom(("call", "len", (fin.get("_alpha_classes"),), ())),)
+    dv = q.dict_view(tr, pr) if pr is not None else None
+    ok = False
+    if dv is not None and dr:
+        ac = fin.get("_alpha_classes")
+        ok = dv[0] == q.sub(ac, q.POS) and dv[1] == q.sub(dr[0].result, q.POS) and dv[2] == atom(("call", "len", (ac,), ()))
     ctx.ob("FRM", site, "class i gets the i-th drawn probability", bool(ok), q.short(pr, 120) if pr is not None else "unset")
 
 
@@ -536,11 +541,29 @@ def column_resolution(ctx):
             a = l.single_atom()
             if a is None or a[0] != "tuple" or len(a[1]) != 2:
                 continue
+            first = a[1][0].single_atom()
+            if first is not None and first[0] == "call" and first[1] == "pandas.DataFrame":
+                # the frame-returning variant hands the column names back as given
+                ctx.ob("FRM", "Injector._preprocess", "with return_df the requested names are returned unchanged", a[1][1] == cols, q.short(a[1][1], 80))
+                continue
+            isdf = atom(("call", "isinstance", (P("data"), atom(("global", "pandas.DataFrame"))), ()))
+            isnd = atom(("call", "isinstance", (P("data"), atom(("global", "numpy.ndarray"))), ()))
             for c2, idx in q.ite_leaves(a[1][1]):
-                isnd = any(x == atom(("call", "isinstance", (P("data"), atom(("global", "numpy.ndarray"))), ())) for x in tuple(conds) + tuple(c2))
-                if any((x.single_atom() or ("",))[0] == "not" for x in tuple(c2)) or (idx.single_atom() or ("",))[0] == "call":
+                cs_ = [y for x in tuple(conds) + tuple(c2) for y in q.conjuncts(x)]
+                if not q.feasible(cs_):
+                    continue
+                frame = isdf in cs_ or (T.mk_not(isnd) in cs_ and T.mk_not(isdf) not in cs_)   # the DataFrame case of this leaf
+                if T.mentions(idx, lambda z: z[0] == "mcall" and z[2] == "get_loc") or frame:
                     ia = idx.single_atom()
-                    ok = ia is not None and ia[0] == "call" and ia[1] == "tuple" and T.mentions(idx, lambda z: z[0] == "mcall" and z[2] == "get_loc")
+                    ok = frame and ia is not None and ia[0] == "call" and ia[1] == "tuple" and len(ia[2]) == 1
+                    v = q.seq_view(tr, ia[2][0]) if ok else None
+                    if ok and v is None:
+                        vc = ia[2][0].single_atom()  # one get_loc per element of `columns`
+                        if vc is not None and vc[0] == "comp" and len(vc[2]) == 1 and len(vc[3]) == 1 and not vc[4] and vc[3][0] == cols:
+                            v = (vc[2][0], None)
+                    el = v[0].single_atom() if v is not None else None
+                    ok = ok and el is not None and el[0] == "mcall" and el[2] == "get_loc" and el[1] == atom(("getattr", P("data"), "columns")) and \
+                        len(el[3]) == 1 and (el[3][0].single_atom() or ("",))[0] == "iter" and el[3][0].single_atom()[1] == cols
                     ctx.ob("FRM", "Injector._preprocess", "DataFrame column names are resolved to positions (get_loc, one per requested column)", ok, q.short(idx, 100))
-                elif idx == cols:
-                    ctx.ob("FRM", "Injector._preprocess", "array column indices are used as given", True, "")
+                else:
+                    ctx.ob("FRM", "Injector._preprocess", "array column indices are used as given", idx == cols and T.mk_not(isdf) in cs_ or idx == cols and isnd in cs_, q.short(idx, 100))
